@@ -15,8 +15,8 @@ afterwards was created by the library, not by the caller.
 
 import copy
 
-from dsim.actors import (exc_summary, pyval, sized_reader_cls, subclassed,
-                         plain)
+from dsim.actors import (exc_summary, load_stream, pyval, sized_reader_cls,
+                         subclassed, plain)
 from dsim.world import (Actor, HarnessError, SimEventCap, SimHang,
                         SimReadHandle, SimWriteHandle, jsonable)
 
@@ -527,7 +527,7 @@ def _do(world, st, op):
             except Exception:
                 fresh = None
 
-            h = SimReadHandle(world, data, 'dom-parse')
+            h = load_stream(world, op.get('stream'), data, 'dom-parse')
 
             try:
                 t = st.shared_reader.parse(h)
@@ -543,7 +543,7 @@ def _do(world, st, op):
                               'accepts' if fresh is None else 'tree',
                               {'op': op})
         elif via == 'from_stream':
-            h = SimReadHandle(world, data, 'dom-parse')
+            h = load_stream(world, op.get('stream'), data, 'dom-parse')
             t = L.DiffX.from_stream(h)
         else:
             t = L.DiffX.from_bytes(data)
